@@ -35,10 +35,46 @@ def spec_accepts(op, a, b, p, impl, spec):
     if impl == spec:
         return True
     if op in ("shl", "shr") and impl.startswith("err") and spec == "ok 0":
-        # over-large count: error instead of the defined value 0 is allowed
-        k = b if b <= p // 2 else p - b
-        return k >= nbits(p)
+        # error instead of the defined value 0: exactly the case of theorem C16_field_never_panics - the count fits
+        # no machine word in either direction (second audit: this was `count >= nbits(p)`, wider than the theorem)
+        return word_overflow_count(b, p)
     return False
+
+
+def word_overflow_count(b, p):
+    """The shift-count case of C16_field_never_panics / C16_dispatch_missing_constant_cases: 2^64 <= b /\ 2^64 <= p - b."""
+    return (1 << 64) <= b and (1 << 64) <= p - b
+
+
+def is_probable_prime(n):
+    """Miller-Rabin with the first 24 primes as bases (deterministic far beyond 2^64; a probabilistic
+    test with error < 4^-24 for the 254/255-bit constants): evaluates hypothesis `prime p`."""
+    if n < 2:
+        return False
+    small = [2, 3, 5, 7, 11, 13, 17, 19, 23, 29, 31, 37, 41, 43, 47, 53, 59, 61, 67, 71, 73, 79, 83, 89]
+    for q in small:
+        if n % q == 0:
+            return n == q
+    d, r = n - 1, 0
+    while d % 2 == 0:
+        d //= 2
+        r += 1
+    for a in small:
+        x = pow(a, d, n)
+        if x in (1, n - 1):
+            continue
+        for _ in range(r - 1):
+            x = x * x % n
+            if x == n - 1:
+                break
+        else:
+            return False
+    return True
+
+
+def field_hypotheses(p):
+    """Hypotheses `prime p`, `2 < p`, `Z.log2 p < 2^64` of the C16 theorems, evaluated on one modulus."""
+    return is_probable_prime(p) and p > 2 and (p.bit_length() - 1) < (1 << 64)
 
 
 def div_ok(a, b, p, impl):
@@ -302,8 +338,9 @@ def modpow_anchor():
     got["version"], got["checksum"] = m.group(1), m.group(2)
     toml = open(os.path.join(common.REPO, "circom_algebra", "Cargo.toml")).read()
     got["default_features"] = not re.search(r"num-bigint-dig\s*=\s*\{[^}]*default-features\s*=\s*false", toml)
-    got["pow_body"] = " ".join(re.search(r"pub fn pow\(.*?\n\}", open(os.path.join(
-        common.REPO, "circom_algebra/src/modular_arithmetic.rs")).read(), re.S).group(0).split())
+    mp = re.search(r"pub fn pow\(.*?\n\}", open(os.path.join(common.REPO, "circom_algebra/src/modular_arithmetic.rs")).read(), re.S)
+    if mp:
+        got["pow_body"] = " ".join(mp.group(0).split())
     srcs = glob.glob(os.path.expanduser("~/.cargo/registry/src/*/num-bigint-dig-%s/src/monty.rs" % got["version"]))
     if srcs:
         text = open(srcs[0]).read()
@@ -312,10 +349,12 @@ def modpow_anchor():
         got["window_bits"] = int(w.group(1)) if w else None
         feat = open(os.path.join(os.path.dirname(os.path.dirname(srcs[0])), "Cargo.toml")).read()
         got["u64_digit_default"] = bool(re.search(r'default = \[[^\]]*"u64_digit"', feat))
-    diff = [k for k in want if k in got and got[k] != want[k]]
+    # a key that could not be read (registry source gone, pattern no longer found) counts as changed: nothing is
+    # compared "as far as available" (second audit)
+    diff = [k for k in want if got.get(k, "<not readable>") != want[k]]
     if diff:
-        return {"status": "changed", "why": ", ".join("%s: %r (mirrored: %r)" % (k, got[k], want[k]) for k in diff), "got": got}
-    return {"status": "same" if srcs else "registry source not found: version and checksum only", "got": got}
+        return {"status": "changed", "why": ", ".join("%s: %r (mirrored: %r)" % (k, got.get(k, "<not readable>"), want[k]) for k in diff), "got": got}
+    return {"status": "same", "got": got, "keys_compared": sorted(want)}
 
 
 SEXP_TOK = re.compile(r"\(|\)|[^\s()]+")
@@ -368,9 +407,9 @@ def dispatch_verdict(p, dump, doc):
                 if n[1] in ("and", "or"):
                     return None
                 if n[1] in ("shl", "shr"):
-                    b = kids[1][1]
-                    k = b if b <= p // 2 else p - b
-                    if k >= nbits(p) and d == 0:
+                    # exactly the case of theorem C16_dispatch_missing_constant_cases (second audit: this was
+                    # `count >= nbits(p)`, wider than the theorem): the count fits no machine word in either direction
+                    if word_overflow_count(kids[1][1], p) and d == 0:
                         return None
                 return "no constant attached although both operands are constants and the result is defined"
             if n[0] == "infix" and n[1] in ("and", "or") and all(k != "-" and k[0] == "b" for k in kids):
@@ -402,9 +441,23 @@ def run_dispatch(ctx, HARNESS_BIN, MODEL_BIN):
         raise common.BuildError("dispatch outputs differ in length", "%d %d %d %d %d" % (len(impl), len(loop), len(bott), len(doc), len(cs)))
     disagreements, failing = [], []
     kinds, nontrivial, ops_seen = {}, set(), set()
+    # hypotheses of the dispatch theorems, evaluated on every case: `prime p`, `2 < p`, `Z.log2 p < 2^64` (per curve),
+    # `lits_nonneg e` (every literal of the tree), and `lit_dispatch p e = Ok o` of C16_pass_loop_reaches_dispatch
+    # (the bottom-up dispatch answered: a constant or `-`, not panic / outoffuel)
+    hyp = {"cases": len(cs), "field_hypotheses_hold": 0, "lits_nonneg_hold": 0, "bottom_up_answers": 0, "broken": []}
+    field_ok = {p: field_hypotheses(p) for _, p in curves}
+
+    def lits(t):
+        return [t[1]] if t[0] == "n" else [z for k in t[2:] for z in lits(k)]
     for (name, p, t), li, lm, lb, ld in zip(cs, impl, loop, bott, doc):
         ri, rm, rb, rd = (x.split(" = ", 1)[1] for x in (li, lm, lb, ld))
         inp = "dispatch %s %x :: %s :: %s" % (name, p, render(t), tokens(t))
+        h1, h2, h3 = field_ok[p], all(z >= 0 for z in lits(t)), (rb == "-" or rb.startswith("("))
+        hyp["field_hypotheses_hold"] += h1
+        hyp["lits_nonneg_hold"] += h2
+        hyp["bottom_up_answers"] += h3
+        if not (h1 and h2 and h3) and len(hyp["broken"]) < 5:
+            hyp["broken"].append({"case": inp, "prime/2<p/log2": h1, "lits_nonneg": h2, "lit_dispatch": rb})
         if ri != rm:
             disagreements.append({"case": inp, "impl": ri, "model": rm})
         n = parse_dump(rm)
@@ -423,7 +476,7 @@ def run_dispatch(ctx, HARNESS_BIN, MODEL_BIN):
         if t[0] != "n":
             ops_seen.add(t[1])
             nontrivial.add((t[1], name, ri.rsplit(" ", 2)[-1] if k != "f" else ri.rsplit("(f ", 1)[-1]))
-    return {"cases": len(cs), "disagreements": disagreements, "failing": failing, "kinds": kinds,
+    return {"cases": len(cs), "disagreements": disagreements, "failing": failing, "kinds": kinds, "hypotheses": hyp,
             "nontrivial": len(nontrivial), "ops": sorted(ops_seen), "curves": [c[0] for c in curves],
             "samples": [impl[0], impl[len(impl) // 2]]}
 
@@ -539,6 +592,15 @@ def run(ctx, proofs):
         elif proofs["failures"]:
             ctx.violation("proof obligations of C16 no longer check: " + "; ".join(proofs["failures"])[:500],
                           {"broken": "props/C16.v", "failures": proofs["failures"]}, no_input=True)
+    hyp = disp["hypotheses"]
+    hyp["small_field_moduli_prime"] = {str(q): field_hypotheses(q) for q in SMALL}
+    hyp["shipped_primes"] = {hex(q): field_hypotheses(q) for q in primes}
+    if not all(hyp["small_field_moduli_prime"].values()) or not all(hyp["shipped_primes"].values()):
+        hyp["broken"].append({"moduli": "a modulus of the sweep does not meet `prime p /\\ 2 < p /\\ Z.log2 p < 2^64`"})
+    if hyp["broken"] and not failing and not disagreements:
+        ctx.violation("a hypothesis of the C16 theorems does not hold on an explored case: %r" % (hyp["broken"][0],),
+                      {"broken": "hypotheses of the C16 dispatch / field theorems (prime p, 2 < p, log2 p < 2^64, lits_nonneg, "
+                                 "lit_dispatch answers)", "first": hyp["broken"][0], "count": len(hyp["broken"])}, no_input=True)
     if anchor["status"] == "changed" and not failing and not disagreements:
         ctx.violation("the library code mirrored by Model.FieldPow (num-bigint-dig monty_modpow) is not the one linked: " + anchor["why"],
                       {"broken": "structure mirror Model.FieldPow vs num-bigint-dig", "anchor": anchor}, no_input=True)
@@ -571,6 +633,10 @@ def run(ctx, proofs):
             "operators": disp["ops"],
             "curves": disp["curves"],
             "root_constant_kinds": disp["kinds"],
+            "hypotheses_evaluated": hyp,
+            "link_to_the_running_code": "theorems C16_pass_loop_reaches_dispatch / C16_pass_loop_total: for every closed expression "
+                                        "the pass-loop mirror (propagate_lit) ends with every node carrying the bottom-up constant "
+                                        "(lit_dispatch); the per-case comparison of the two remains as a check of the extracted code",
             "samples": disp["samples"],
         },
     })
